@@ -47,12 +47,15 @@ CONTENT.update({DOBJ[d][0]: DOBJ[d][1] for d in DOBJ})
 
 class FailFS(LocalFileSystem):
     fail: set = set()
+    kind = 0      # which exception class an injected failure has (rotates with the case: EIO, ENOENT, EACCES, timeout, ...)
 
     def put_file(self, from_file, to_info, callback=None, size=None, **kwargs):
         parts = os.fspath(to_info).split(os.sep)
         oid = parts[-2] + parts[-1]
         if OID2OBJ.get(oid) in FailFS.fail:
-            raise OSError(errno.EIO, "injected upload failure", to_info)
+            from ..world import FAULT_KINDS
+
+            raise FAULT_KINDS[FailFS.kind % len(FAULT_KINDS)](to_info)
         kw = dict(kwargs)
         if callback is not None:
             kw["callback"] = callback
@@ -157,6 +160,7 @@ def run_case(case):
                     si = d.storage_map[()]
                     groups[nm(si.data)] = {"cache": nm(si.cache), "objects": sorted({obj_of(e) for _k, e in d.iteritems() if e.hash_info})}
             FailFS.fail = F
+            FailFS.kind = case.get("id", 0)
             try:
                 pushed, failed = push(data)
             except Exception as exc:  # noqa: BLE001 - recorded
